@@ -352,6 +352,18 @@ def run_seq(ctx, p):
         out = ctx.call(s, np.array([0.5 * r2, r2 * (1 + 1e-3) + 1e-300]), t)
         ok = float(ins["density"][1]) > float(out["density"][1]) and float(ins["pressure"][1]) > 0 and float(ins["velocity"][1]) > 0
         ctx.observe("adm.shock", "Sedov", ok, branch="g=%s %s" % (d["geom"], s.solution_type), detail=dict(kw=d["passed"], t=t))
+        # the same object at earlier and later times (a time loop run backwards, a restart): the shock stays compressive and
+        # the shell right behind it (0.9 ... 1 r2, far outside any vacuum hole) stays filled
+        for f in (0.5, 0.15, 0.05, 2.0):
+            tt = t * f
+            ctx.call(s, np.array([1.0]), tt)
+            r2 = float(s.r2)
+            ins = ctx.call(s, np.array([0.9 * r2, 0.97 * r2, r2 * (1 - 1e-9)]), tt)
+            out = ctx.call(s, np.array([0.5 * r2, r2 * (1 + 1e-3) + 1e-300]), tt)
+            ok = (float(ins["density"][2]) > float(out["density"][1]) and float(ins["pressure"][2]) > 0 and float(ins["velocity"][2]) > 0
+                  and bool(np.all(np.asarray(ins["density"], float) > 0)))
+            ctx.observe("adm.shock", "Sedov", ok, branch="g=%s %s, object re-used at %g t" % (d["geom"], s.solution_type, f),
+                        detail=dict(kw=d["passed"], t=tt, behind=[float(v) for v in ins["density"]], ahead=float(out["density"][1])))
     else:
         pass   # Guderley: positivity via the online monitor on the catalogue draw
 
